@@ -342,9 +342,6 @@ def check_views(ctx: Ctx, rng, reqs):
             ddf = pd.DataFrame([{"time": cl.at(t), "instrument_name": "ETH-A", "mark_price": float(t)} for t in hours]).set_index(["time", "instrument_name"])
             dm = DeribitOptionMarket(MarketInfo("d", MarketTypeEnum.deribit_option), DeribitOptionMarket.ETH, data=ddf)
             impl_hour = []
-            # set_market_status consults the *previous* status when the hourly row is missing (to decide about a log line) and would
-            # raise AttributeError on the very first call (reported to the deribit builder): give it a previous status
-            dm._market_status = DeribitMarketStatus(index[0], pd.DataFrame())
             for i in range(n):
                 st = DeribitMarketStatus(index[i], None)
                 dm.set_market_status(st, None)
